@@ -359,10 +359,11 @@ def footer_read(F):
     b = F.body(A("block_read_from"))
     out = {}
     # count: last 4 bytes, BE u32
-    um = [s for s, c, t in calls(b, "Result::<T, E>::map")]
+    um = [s for s, c, t in b.calls() if c and c["path"].rsplit("::", 1)[-1] in ("from_be_bytes", "from_le_bytes", "from_ne_bytes") and "u32" in c["path"]]
     for s in um:
-        a = b.arg_exprs(s)
-        if a[1].k == "fn" and "from_" in a[1].x["path"] and "bytes" in a[1].x["path"]:
+        a = [None, Expr("fn", path=callee_of(b.at(s))["path"]), None]
+        a[0] = b.arg_exprs(s)[0]
+        if True:
             src = a[0]
             idx = [x for x in src.walk() if x.k == "call" and x.x["path"].endswith("::index")]
             rngs = []
@@ -405,7 +406,7 @@ def _sym(e):
         return _sym(s.a[0])
     if s.k == "call" and s.x["path"].endswith("::len"):
         return "len"
-    if s.k == "call" and s.x["path"].endswith("::unwrap"):
+    if s.k == "call" and (s.x["path"].endswith("::unwrap") or s.x["path"].rsplit("::", 1)[-1] in ("from_be_bytes", "from_le_bytes", "from_ne_bytes")):
         return "count"
     if s.k == "var":
         return s.x["name"]
@@ -441,10 +442,12 @@ def index_entry_values(F):
     for b in F.user_bodies():
         if not b.path.startswith("reader::reader_cursor"):
             continue
-        for s, c, t in calls(b, "Result::<T, E>::map"):
-            a = b.arg_exprs(s)
-            if a[1].k == "fn" and "bytes" in a[1].x["path"]:
-                r.append((b.path.split("::")[-1], a[1].x["path"].rsplit("impl ", 1)[-1]))
+        for s, c, t in b.calls():
+            if c and c["path"].rsplit("::", 1)[-1] in ("from_be_bytes", "from_le_bytes", "from_ne_bytes"):
+                r.append((b.path.split("::")[-1], c["path"].rsplit("impl ", 1)[-1]))
+            for a_ in t["args"]:
+                if a_.get("k") == "const" and "fn" in a_ and a_["fn"]["path"].rsplit("::", 1)[-1] in ("from_be_bytes", "from_le_bytes", "from_ne_bytes"):
+                    r.append((b.path.split("::")[-1], a_["fn"]["path"].rsplit("impl ", 1)[-1]))
     return sorted(w), sorted(r)
 
 
